@@ -354,7 +354,8 @@ func NewRequest(ctx context.Context, lmd *Daemon, buf *bufio.Reader, options Par
 	// remove unnecessary filter indentation
 	if options&ParseOptimize != 0 {
 		req.optimizeFilterIndentation()
-		req.StatsGrouped = req.optimizeStatsGroups(req.Stats, true)
+		// group a copy, req.Stats is still used to build the result and to serialise the request
+		req.StatsGrouped = req.optimizeStatsGroups(cloneFilterList(req.Stats), true)
 	}
 
 	req.SetRequestColumns()
